@@ -161,7 +161,7 @@ Fixpoint drop_items (c : cfg) (its : list ritem) : M st unit :=
       fun s => match drop_item c it s with
                | Ok _ s' => drop_items c r s'
                | Panic p s' =>
-                   match drop_items c r s' with
+                   match quiet_st (drop_items c r) s' with
                    | Ok _ s'' => Panic p s''
                    | Panic _ _ => Fault FAbort
                    | Fault f => Fault f
@@ -178,14 +178,14 @@ Fixpoint splice_fill (c : cfg) (off : nat) (budget : nat) (written : N)
   | S b =>
       (* replace_with.next() is user code *)
       emitv ENext;;
-      on_unwind user_call (drop_items c its);;
+      unwinding_st user_call (drop_items c its);;
       match its with
       | [] => ret (written, [])
       | it :: rest =>
           (* the item in hand is dropped if the check or the move panics; the
              iterator (rest) is dropped when Splice's fields are *)
-          on_unwind
-            (on_unwind
+          unwinding_st
+            (unwinding_st
                (assert_ (r_ty it =? c_ty c) PType)
                (drop_item c it);;
              write_value c off (r_src it))
@@ -212,14 +212,14 @@ Definition splice_drop (c : cfg) (known : bool) (d : drain)
            (claimed : N) (its : list ritem) : M st unit :=
   let start := dstart d in
   let elements_left := dorig d - dend d in
-  do replace_end <- on_unwind (splice_prep c known d claimed) (drop_items c its);
+  do replace_end <- unwinding_st (splice_prep c known d claimed) (drop_items c its);
   (* 3. move replace_with in; never more than reserved *)
   do wr <- splice_fill c (bo c start) (N.to_nat claimed) 0 its;
   let '(written, rest) := wr in
   (* fewer items than promised: close the gap *)
   (if written <? claimed
-   then on_unwind (move_elements c replace_end (start + written) elements_left)
-                  (drop_items c rest)
+   then unwinding_st (move_elements c replace_end (start + written) elements_left)
+                     (drop_items c rest)
    else ret tt);;
   (* 4. restore len *)
   setv (with_len (start + written + elements_left));;
